@@ -115,3 +115,167 @@ Proof.
   exists pos, m, n. split; [reflexivity|]. split; [exact Hn|]. split; [exact Hp|].
   exact (invalid_never_delivered f (config_of c) (k_msgs c) d pos m Hd He).
 Qed.
+
+(* ========================================================================
+   FROM AGREEMENT TO THE PROPERTY.  If the implementation's observation agrees
+   with the model of variant [f] on a scenario whose payloads identify the
+   injected messages, then the only clauses the property checker can report
+   are those of the two known defects -- clause 1 (placeholder) only when
+   fix_f02 is off, clause 5 (crash) only when fix_f03 is off.  In particular
+   agreement with the repaired variant implies [check c = []].
+   ======================================================================== *)
+
+(* where a waiting / delivered message of instance [i] came from *)
+Definition origin_i (l : list inj) (i : nat) (m : pmsg) : Prop :=
+  exists x, In x l /\ i_inst x = i /\ p_from m = w_from (i_wire x) /\ p_peer m = i_env x /\
+            p_payload m = w_payload (i_wire x).
+
+Definition sall_i (P : nat -> pmsg -> Prop) (s : qstate) : Prop := forall i, qall (P i) (sget s i).
+
+Lemma sall_i_sset P s i q : sall_i P s -> qall (P i) q -> sall_i P (sset s i q).
+Proof.
+  intros Hs Hq j. rewrite sget_sset. destruct (j =? i) eqn:E; [|apply Hs].
+  apply Nat.eqb_eq in E. subst j. exact Hq.
+Qed.
+
+Lemma project_nil_r l : project l [] = [].
+Proof. destruct l; reflexivity. Qed.
+
+Lemma project_ok f c L : forall l s,
+  (forall x, In x l -> In x L) -> sall_i (origin_i L) s ->
+  forall od, In od (project l (run_from f c s l)) ->
+    exists d, In d (all_deliveries (run_from f c s l)) /\ od = proj_deliv (od_inst od) d /\
+      Forall (elem_ok (origin_i L (od_inst od)) (nodes (c_tree c))) (d_batch d).
+Proof.
+  induction l as [|x l IH]; intros s Hsub Hs od Hod; [destruct Hod|].
+  cbn [run_from] in *. destruct (step_inj f c s x) as [s' res] eqn:Est.
+  assert (Hx : origin_i L (i_inst x) (process (i_env x) (i_wire x))).
+  { exists x. cbn. repeat split; auto. apply Hsub. now left. }
+  assert (Hres : sall_i (origin_i L) s' /\
+                 Forall (deliv_ok (origin_i L (i_inst x)) (nodes (c_tree c))) (deliveries_of res)).
+  { revert Est. unfold step_inj.
+    destruct (nth_error (c_insts c) (i_inst x)) as [toid|];
+      [|intros H; injection H as <- <-; split; [exact Hs|constructor]].
+    destruct (search (nodes (c_tree c)) toid) as [[mepos me]|];
+      [|intros H; injection H as <- <-; split; [exact Hs|constructor]].
+    destruct (step (fix_f02 f) (fix_f03 f) (nodes (c_tree c)) me (c_regs c) (sget s (i_inst x))
+                (process (i_env x) (i_wire x))) as [q' [ds st]] eqn:Es.
+    intros H. injection H as <- <-.
+    destruct (step_ok (origin_i L (i_inst x)) _ _ _ _ _ _ _ _ _ _ (Hs (i_inst x)) Hx Es) as [Hq' Hds].
+    split; [apply sall_i_sset; assumption|exact Hds]. }
+  destruct Hres as [Hs' Hds].
+  assert (Hhere : forall od0, In od0 (map (proj_deliv (i_inst x)) (deliveries_of res)) ->
+            exists d, In d (deliveries_of res) /\ od0 = proj_deliv (od_inst od0) d /\
+              Forall (elem_ok (origin_i L (od_inst od0)) (nodes (c_tree c))) (d_batch d)).
+  { intros od0 H0. apply in_map_iff in H0 as (d & <- & Hd). exists d. split; [exact Hd|].
+    split; [reflexivity|]. cbn [proj_deliv od_inst]. rewrite Forall_forall in Hds. exact (Hds d Hd). }
+  destruct (is_crash res).
+  - cbn [project] in Hod. rewrite project_nil_r, app_nil_r in Hod.
+    destruct (Hhere od Hod) as (d & Hd & He & Hok). exists d. split; [|auto].
+    unfold all_deliveries. cbn [flat_map]. rewrite app_nil_r. exact Hd.
+  - cbn [project] in Hod. apply in_app_or in Hod as [Hod|Hod].
+    + destruct (Hhere od Hod) as (d & Hd & He & Hok). exists d. split; [|auto].
+      unfold all_deliveries. cbn [flat_map]. apply in_or_app. now left.
+    + destruct (IH s' (fun y Hy => Hsub y (or_intror Hy)) Hs' od Hod) as (d & Hd & He & Hok).
+      exists d. split; [|auto]. unfold all_deliveries. cbn [flat_map]. apply in_or_app. now right.
+Qed.
+
+Lemma list_eqb_eq {A} (e : A -> A -> bool) (He : forall a b, e a b = true -> a = b) :
+  forall l1 l2, list_eqb e l1 l2 = true -> l1 = l2.
+Proof.
+  induction l1 as [|a l1 IH]; intros [|b l2] H; cbn in H; try discriminate; [reflexivity|].
+  apply andb_true_iff in H as [H1 H2]. f_equal; [apply He; exact H1|apply IH; exact H2].
+Qed.
+
+Lemma oelem_eqb_eq a b : oelem_eqb a b = true -> a = b.
+Proof.
+  unfold oelem_eqb. intros H. apply andb_true_iff in H as [H1 H2]. apply Nat.eqb_eq in H2.
+  destruct a as [na pa], b as [nb pb]. cbn in *. subst pb. f_equal.
+  destruct na, nb; cbn in H1; try discriminate; try reflexivity. apply Nat.eqb_eq in H1. now subst.
+Qed.
+
+Lemma odeliv_eqb_eq a b : odeliv_eqb a b = true -> a = b.
+Proof.
+  unfold odeliv_eqb. intros H.
+  apply andb_true_iff in H as [H H4]. apply andb_true_iff in H as [H H3]. apply andb_true_iff in H as [H1 H2].
+  apply Nat.eqb_eq in H1, H2. apply Bool.eqb_prop in H3. apply (list_eqb_eq _ oelem_eqb_eq) in H4.
+  destruct a, b. cbn in *. now subst.
+Qed.
+
+Lemma NoDup_map_inj {A B} (g : A -> B) : forall l a b,
+  NoDup (map g l) -> In a l -> In b l -> g a = g b -> a = b.
+Proof.
+  induction l as [|x l IH]; intros a b Hnd Ha Hb Hg; [destruct Ha|].
+  cbn in Hnd. inversion Hnd as [|? ? Hnin Hnd']; subst.
+  destruct Ha as [<-|Ha]; destruct Hb as [<-|Hb]; [reflexivity| | |eapply IH; eauto].
+  - exfalso. apply Hnin. rewrite Hg. now apply in_map.
+  - exfalso. apply Hnin. rewrite <- Hg. now apply in_map.
+Qed.
+
+Definition msg_key (x : inj) : nat * nat := (i_inst x, w_payload (i_wire x)).
+
+Lemma find_msg_unique msgs x :
+  NoDup (map msg_key msgs) -> In x msgs ->
+  find_msg msgs (i_inst x) (w_payload (i_wire x)) = Some x.
+Proof.
+  intros Hnd Hx. unfold find_msg.
+  destruct (find _ msgs) as [y|] eqn:E.
+  - apply find_some in E as [Hy Hp]. apply andb_true_iff in Hp as [H1 H2]. apply Nat.eqb_eq in H1, H2.
+    f_equal. apply (NoDup_map_inj msg_key msgs y x Hnd Hy Hx). unfold msg_key. congruence.
+  - exfalso. pose proof (find_none _ _ E x Hx) as H. cbn in H. rewrite !Nat.eqb_refl in H. discriminate.
+Qed.
+
+Theorem agree_check f c :
+  NoDup (map msg_key (k_msgs c)) ->
+  agree_obs f (config_of c) (k_msgs c) (k_obs c) (k_final c) = true ->
+  forall cl, In cl (check c) ->
+    (cl = 1 /\ fix_f02 f = false) \/ (cl = 5 /\ fix_f03 f = false).
+Proof.
+  intros Hnd Hag cl Hcl. unfold agree_obs in Hag.
+  apply andb_true_iff in Hag as [Hag Hfin]. apply andb_true_iff in Hag as [_ Hobs].
+  apply (list_eqb_eq _ odeliv_eqb_eq) in Hobs.
+  set (cfg := config_of c) in *. set (msgs := k_msgs c) in *.
+  unfold check in Hcl. apply in_app_or in Hcl as [Hcl|Hcl].
+  - (* a clause about a delivered element *)
+    apply in_flat_map in Hcl as (od & Hod & Hcl). apply in_flat_map in Hcl as (oe & Hoe & Hcl).
+    rewrite <- Hobs in Hod. unfold run in Hod.
+    destruct (project_ok f cfg msgs msgs [] (fun x H => H) (fun i => qall_nil _) od Hod)
+      as (d & Hd & Hproj & Hok).
+    rewrite Hproj in Hoe. cbn [proj_deliv od_elems] in Hoe. apply in_map_iff in Hoe as (e0 & <- & He0).
+    rewrite Forall_forall in Hok. specialize (Hok e0 He0).
+    destruct e0 as [pos m|].
+    + (* a real message: the checker has nothing to say *)
+      exfalso. destruct Hok as [(x & Hx & Hinst & Hfrom & Hpeer & Hpl) (n & Hn & Hf & Hp)].
+      fold (run f cfg msgs) in Hd.
+      pose proof (invalid_never_delivered f cfg msgs d pos m Hd He0) as Hinv.
+      unfold elem_clauses in Hcl. cbn [proj_elem o_node o_payload] in Hcl.
+      change (nodes (k_tree c)) with (nodes (c_tree cfg)) in Hcl. rewrite Hn in Hcl.
+      rewrite <- Hinst, Hpl in Hcl. fold msgs in Hcl. rewrite (find_msg_unique msgs x Hnd Hx) in Hcl.
+      assert (H3 : peer_hosts (i_env x) n = true).
+      { unfold peer_hosts. rewrite <- Hpeer. destruct Hp as [-> | ->]; [reflexivity|apply Nat.eqb_refl]. }
+      assert (H4 : invalid_b (nodes (c_tree cfg)) (w_from (i_wire x)) (i_env x) = false).
+      { destruct (invalid_b _ _ _) eqn:E; [|reflexivity]. apply invalid_b_spec in E.
+        rewrite <- Hfrom, <- Hpeer in E. contradiction. }
+      rewrite H3, H4 in Hcl. destruct Hcl.
+    + (* the placeholder: clause 1, and only the variant without the F02 repair produces it *)
+      cbn in Hcl. destruct Hcl as [<-|[]]. left. split; [reflexivity|].
+      destruct (fix_f02 f) eqn:E2; [|reflexivity]. exfalso.
+      fold (run f cfg msgs) in Hd.
+      pose proof (no_placeholder f cfg msgs (or_introl E2)) as Hnz.
+      rewrite Forall_forall in Hnz. exact (Hnz d Hd He0).
+  - (* clause 5: the crash, and only the variant without the F03 repair produces it *)
+    unfold clause in Hcl. destruct (negb (ofinal_eqb (k_final c) FCrashed)) eqn:E5; [destruct Hcl|].
+    destruct Hcl as [<-|[]]. right. split; [reflexivity|].
+    destruct (fix_f03 f) eqn:E3; [|reflexivity]. exfalso.
+    destruct (no_crash f cfg msgs (or_introl E3)) as [Hnc _]. rewrite Hnc in Hfin.
+    apply negb_false_iff in E5. destruct (k_final c); cbn in *; discriminate.
+Qed.
+
+Corollary agree_repaired_check c :
+  NoDup (map msg_key (k_msgs c)) ->
+  agree_obs repaired (config_of c) (k_msgs c) (k_obs c) (k_final c) = true ->
+  check c = [].
+Proof.
+  intros Hnd Hag. destruct (check c) as [|cl r] eqn:E; [reflexivity|]. exfalso.
+  destruct (agree_check repaired c Hnd Hag cl) as [[_ H]|[_ H]]; [rewrite E; now left|discriminate|discriminate].
+Qed.
